@@ -9,7 +9,7 @@
    the tag name "emph" as "em" (the `external` flag of hyperlinks is NOT erased any more:
    defect F10 is fixed by 8ee055e). *)
 From Pybtex Require Import Base.Prelude Base.PyChar Base.PyStr Model.RtTypes Model.RichText
-  Spec.Flat Spec.FlatOps Proofs.RichText Proofs.RichSlice Proofs.RichOps Proofs.RichEq Proofs.RichWf Proofs.RichObs Proofs.RichSplit.
+  Spec.Flat Spec.FlatOps Proofs.RichText Proofs.RichSlice Proofs.RichOps Proofs.RichEq Proofs.RichWf Proofs.RichObs Proofs.RichSplit Proofs.RichInj.
 
 (* len(text) is the number of (character, markup) pairs of the rendering *)
 Theorem len_flat : forall t, rlen t = length (flat t).
@@ -215,6 +215,21 @@ Theorem eq_refl_all : forall a, rt_eqb a a = true.
 Proof. exact rt_eqb_refl. Qed.
 Print Assumptions eq_refl_all.
 
+(* converse (flat_injective): two texts in the normal form the constructor produces (`normal`,
+   Spec/FlatOps.v: parts non-empty, never a Text, normal, neighbours of different type
+   information) of the same class with the same rendering are the same text, hence == .
+   Partial: that every constructed value is normal is not proved in Coq; it is checked by the
+   oracle on every value the implementation returns. *)
+Theorem flat_injective : forall a b, normal a = true -> normal b = true -> typeinfo a = typeinfo b ->
+  flat a = flat b -> a = b.
+Proof. exact flat_injective_lem. Qed.
+Print Assumptions flat_injective.
+
+Theorem eq_complete_partial : forall a b, normal a = true -> normal b = true -> typeinfo a = typeinfo b ->
+  flat a = flat b -> rt_eqb a b = true.
+Proof. intros a b Na Nb T E. rewrite (flat_injective_lem a b Na Nb T E). exact (rt_eqb_refl b). Qed.
+Print Assumptions eq_complete_partial.
+
 (* grouping while building: an empty part, and wrapping some of the parts into a nested Text,
    change nothing in the object that is built -- hence neither == nor the rendering *)
 Theorem regroup_drop_empty : forall fuel k a e b, nonempty e = false ->
@@ -275,3 +290,9 @@ Example split_example :
   split_c (RText [RStr (s2l "a + "); RProt [RStr (s2l "b c")]]) SepNone None
   = Ok [RText [RStr (s2l "a")]; RText [RStr (s2l "+")]; RText [RProt [RStr (s2l "b c")]]].
 Proof. vm_compute. reflexivity. Qed.
+(* differently grouped constructions give the same normal value *)
+Example normal_example :
+  mkc KText [RTag (s2l "em") [RStr (s2l "a")]; RText [RTag (s2l "em") [RStr (s2l "b"); RStr (s2l "")]; RStr (s2l "c")]; RStr (s2l "d")]
+  = Ok (RText [RTag (s2l "em") [RStr (s2l "ab")]; RStr (s2l "cd")])
+  /\ normal (RText [RTag (s2l "em") [RStr (s2l "ab")]; RStr (s2l "cd")]) = true.
+Proof. vm_compute. split; reflexivity. Qed.
